@@ -482,9 +482,9 @@ class C01(Check):
     extracted = ['coq/Avl/model.mli', 'coq/Avl/model.ml', 'ocaml/zconv.ml', 'ocaml/avl_driver.ml']
     harness_sources = ['harness/avl.cpp']
     per_case_timeout = 5
-    level_text = ('Theorems in Coq (coq/Avl, 18 in Properties_C01.v), for every history of insert (plain and hinted), remove by key / '
+    level_text = ('Theorems in Coq (coq/Avl, 31 in Properties_C01.v), for every history of insert (plain and hinted), remove by key / '
                   'iterator, removeFront/removeBack, clear, copy construction / operator= / self-assignment (Map and MultiMap), '
-                  'Map::insert(other), find/contains/count/front/back on two containers: '
+                  'Map::insert(other), find/contains/count/front/back on two containers. NODE LEVEL: '
                   'the AVL invariant of the model (stored height = real height, sibling heights differ by at most 1, in-order sequence '
                   'sorted - strict for Map, non-strict for MultiMap -, size counter = number of nodes) holds initially and is preserved '
                   'by every operation; every operation refines the reference sorted (multi)map (contents, size, find/contains, count, '
@@ -492,31 +492,54 @@ class C01(Check):
                   'values in the source\'s order - runs of equal keys of a MultiMap included - as new entries and leaves the source '
                   'untouched; remove(key) removes exactly the first entry of the run of equal keys; the position a hinted MultiMap '
                   'insert chooses passes the reference\'s order test in every reachable state, so the reference never rejects); find makes at most 2*floor(1.4405*log2(n+2)) comparisons (integer '
-                  'form without axioms via fib(h+2) <= n+1 and 1.61803^121 >= 2^84; real-number form with ln/Int_part). The model is '
-                  'tied to the code by running the extracted model, the extracted reference and the ASan/UBSan build of the working '
-                  'tree on the same histories: results, iteration, tree shape with stored heights, parent links, slope fields and the '
-                  'threaded prev/next list are compared after every operation (of both containers after copy / assignment / '
-                  'insert(other)), plus the comparison counter of every find; the const overloads of front/back and of the '
-                  'iterator ++/--/*/-> are cross-checked against the non-const ones.')
-    level_note = ('The theorems are about the model; the tie to the code is differential. Validated by correspondence only (not '
-                  'theorems): threaded prev/next list = in-order walk, parent links, the stored slope field, and that the code\'s '
-                  '"stop going up when the height did not change" shortcuts compute the tree of the model (the model re-balances all '
-                  'the way to the root). Copy construction and operator= (Map and MultiMap) are modelled as sequential plain inserts of '
+                  'form without axioms via fib(h+2) <= n+1 and 1.61803^121 >= 2^84; real-number form with ln/Int_part). '
+                  'POINTER LEVEL (AvlHeap*.v): a machine on a heap of Items (slot -> key, value, parent, left, right, height, slope, prev, next) '
+                  'plus root, _begin, endItem.prev, _size performs the individual field writes of the C++ in the C++\'s order: '
+                  'descending insert from any cell (plain and the four hinted entries), list threading, the upward loop with its '
+                  '"height unchanged -> break", rebal/shiftl/shiftr/rotl/rotr/updateHeightAndSlope, remove(Iterator) with the leaf / '
+                  'one-child / two-children cases (neighbour chosen by the stored heights, direct child or deeper, every re-linking write), '
+                  'the rebalParent loop with its jump to *cell, rebalParentUpwards, list un-threading, find (both flavours), clear, the '
+                  'copy and insert(other) loops. Proved for every history (cell_machine_refines_tree, cell_machine_never_faults): the '
+                  'machine never dereferences null nor exhausts a loop bound, and after every operation its cells satisfy Rep with the '
+                  'node-level tree; under Rep (threaded_list_is_inorder, parent_links_consistent): the next chain from _begin and the '
+                  'prev chain from endItem.prev are exactly the in-order sequence, endItem.prev is the maximum, _size the node count, every '
+                  'Item\'s parent/left/right are the Item above / the subtree roots, children point back, height = stored height, slope = '
+                  'height(left) - height(right); early_exit_is_sound: stopping when the height did not change yields the tree that '
+                  're-balancing up to the root yields (used in the loop theorems upward_loop_computes_rebuild and '
+                  'rebal_parent_loop_computes_rebuild). The models are '
+                  'tied to the code by running the extracted node-level model, the extracted cell machine, the extracted reference and '
+                  'the ASan/UBSan build of the working tree on the same histories: results, iteration, tree shape with stored heights and, '
+                  'slot by slot, the raw fields key/value/parent/left/right/height/slope/prev/next of every live Item plus root, _begin, '
+                  'endItem.prev, _size (read through an access override) are compared after every operation (of both containers after '
+                  'copy / assignment / insert(other)), plus the comparison counter of every find; the const overloads of front/back and '
+                  'of the iterator ++/--/*/-> are cross-checked against the non-const ones.')
+    level_note = ('The theorems are about the models; the tie to the code is differential. Since round 3 the pointer level is proved, '
+                  'not only compared: the cell machine (field writes in the code\'s order, early exits included) refines the node-level '
+                  'model for all histories, and the node-level model refines the reference. Still validated by correspondence only: '
+                  'that the cell machine\'s writes are the C++\'s (raw field dump of every live Item after every operation); the free '
+                  'list / block allocator (a slot of the machine is the allocation number and is never reused - the harness renames '
+                  'addresses to allocation numbers - so address reuse after remove/clear is not modelled), destructor calls, '
+                  'endItem.parent / endItem.next (never accessed after construction), the removed Item\'s own fields. The public '
+                  'results (returned iterators, find/count/front/back) are those of the node-level model; at the pointer level the '
+                  'returned Item of insert and the `item->next` of remove are proved to be the slots at the node-level ranks. The cell '
+                  'heap is kept as two maps (tree fields, list fields; structure of arrays), so the relative order of a tree write and a '
+                  'list write inside one operation is not represented (they touch disjoint fields). '
+                  'Copy construction and operator= (Map and MultiMap) are modelled as sequential plain inserts of '
                   'the source\'s entries in iteration order, Map::insert(other) as plain + hinted inserts, as the code does; MultiMap '
                   'has no insert(other) (the op is a no-op there); insert(other) of a Map into itself is not driven. The new entries '
                   'of a copy are numbered by the harness in iteration order (the values, which differ inside every generated run of '
                   'equal keys, show the order of a run). Choices where the property text is silent: MultiMap::remove(key) removes one '
                   'entry, the first of the run of equal keys (theorem remove_key_removes_first_of_run), as the code does; the place of '
                   'a hinted MultiMap insert inside a run of equal keys is an input of the reference, which only checks that the order '
-                  'is kept. find_cost_logarithmic_real depends on the axioms of Coq\'s classical real numbers; the other 17 theorems are '
+                  'is kept. find_cost_logarithmic_real depends on the axioms of Coq\'s classical real numbers; the other 30 theorems are '
                   'closed under the global context. Trusted: Coq kernel, AvlSpec.v as the reading of the property text, extraction, '
-                  'OCaml driver, harness, comparison-counting key type.')
-    technique = 'Coq proof about an executable Gallina model (invariant + refinement + cost bound); extracted model and reference run against the sanitizer build of the code on generated histories'
+                  'OCaml driver (it re-tabulates the extracted heap closures after every operation), harness, comparison-counting key type.')
+    technique = 'Coq proof about two executable Gallina models (node level: invariant + refinement + cost bound; pointer level: cell machine refines the node level via a representation relation); extracted models and reference run against the sanitizer build of the code on generated histories, raw Item fields compared'
     rule = ('cases = operation histories on two Map or two MultiMap objects: boundary (empty, single entry, key 0, negatives, '
             'equal keys, copy/assign/self-assign over empty and non-empty targets), build profiles (ascending/descending/zigzag/'
             'random/internal two-child removals/hinted/copy+assign+self-assign (both flavours, MultiMap sources with runs of equal '
             'keys built by plain and hinted inserts) and insert(other) (Map)/equal-key runs) over key ranges 4..200 and lengths 3..300, a small exhaustive scope of {reset op} x {hint position} x {key vs old '
-            'extremes} (448 cases quick, 908 thorough), and fill-then-drain histories (one side, all but powers of two, repeated median/quartile removals) up to 60 (quick) / 255 (thorough) entries; oracles: reference results line by line (hinted MultiMap positions checked relationally), comparison count and real tree depth against 2*floor(1.4405*log2(n+2)); a case is '
+            'extremes} (448 cases quick, 908 thorough), every tree shape of 5 (quick) / 4..6 (thorough) keys x every removal rank followed by plain/hinted inserts and removals, and fill-then-drain histories (one side, all but powers of two, repeated median/quartile removals) up to 60 (quick) / 255 (thorough) entries; oracles: reference results line by line (hinted MultiMap positions checked relationally), comparison count and real tree depth against 2*floor(1.4405*log2(n+2)); a case is '
             'non-trivial when it has at least 3 mutating operations and reaches at least 3 entries; distinct = distinct op text')
     assumptions = ['keys and values are int (the code is a template; the harness instantiates a comparison-counting int key)',
                    'the allocator succeeds (no out-of-memory path is modelled)',
@@ -628,6 +651,19 @@ class C01(Check):
             out.append(Stream(prof, cases))
         # reset followed by hinted insert (small exhaustive scope)
         out.append(Stream('reset_hint', reset_hint_cases(thorough)))
+        # every tree shape of n keys (all insertion orders), every removal rank, then a few more operations:
+        # the case split of remove() at the pointer level (leaf / one child / successor or predecessor as direct
+        # child or deeper) in every small configuration, with the raw cells compared after each step
+        cases = []
+        for fl in ('map', 'multimap'):
+            for n in ((4, 5, 6) if thorough else (5,)):
+                for perm in itertools.permutations(range(1, n + 1)):
+                    if fl == 'multimap' and n > 4 and perm[0] > 2:
+                        continue
+                    pre = ['@' + fl] + ['ins %d %d' % (10 * k, i + 1) for i, k in enumerate(perm)]
+                    for r in range(n):
+                        cases.append(pre + ['remi %d' % r, 'ins 5 90', 'hint %d 35 91' % (n // 2), 'remb', 'remf', 'remi 1'])
+        out.append(Stream('shapes', cases))
         # fill ascending, drain one side: balance is the only thing at stake
         cases = []
         for multi in (False, True):
